@@ -255,6 +255,11 @@ pub struct DumpCfg {
     pub stop_timeout_ns: Option<u64>,
     /// requests made on the same configured writer before the recorded one (a writer may be reused)
     pub pre_dumps: usize,
+    /// … and those earlier requests are aborted by a destination failure at this call (a hard error part-way)
+    pub pre_fail_call: Option<usize>,
+    /// another process seizes this thread just before the recorded request (after the earlier ones): it cannot be
+    /// attached to any more
+    pub trace_tid: Option<i32>,
 }
 
 impl DumpCfg {
@@ -285,6 +290,9 @@ impl DumpCfg {
         }
         if self.pre_dumps > 0 {
             s.push_str(&format!(",reused:{}", self.pre_dumps));
+        }
+        if let Some(k) = self.pre_fail_call {
+            s.push_str(&format!(",prefail:{}", k));
         }
         s
     }
@@ -508,18 +516,26 @@ pub fn dump_case(prop: &str, id: &str, t: &Target, cfg: &DumpCfg, dest: &mut Rec
     let mut w = writer_for(t, cfg);
     for _ in 0..cfg.pre_dumps {
         let mut scratch = RecDest::new(vec![], 0);
+        if let Some(k) = cfg.pre_fail_call {
+            scratch.script.insert(k, crate::recdest::Resp::Fail);
+        }
         let prev = std::panic::take_hook();
         std::panic::set_hook(Box::new(|_| {}));
         let _ = std::panic::catch_unwind(std::panic::AssertUnwindSafe(|| w.dump(&mut scratch)));
         std::panic::set_hook(prev);
         t.wait_parked();
     }
+    let mut tracer = cfg.trace_tid.and_then(crate::c01::spawn_tracer);
     let prev = std::panic::take_hook();
     std::panic::set_hook(Box::new(|_| {}));
     DUMPER_TID.store(unsafe { libc::syscall(libc::SYS_gettid) } as i32, Ordering::SeqCst);
     let res = std::panic::catch_unwind(std::panic::AssertUnwindSafe(|| w.dump(dest)));
     DUMPER_TID.store(0, Ordering::SeqCst);
     std::panic::set_hook(prev);
+    if let Some(mut c) = tracer.take() {
+        let _ = c.kill();
+        let _ = c.wait();
+    }
     let (result, image) = match res {
         Ok(Ok(img)) => ("ok".to_string(), Some(img)),
         Ok(Err(e)) => (format!("err:{}", err_class(&e)), None),
